@@ -46,6 +46,28 @@ type c20Marsh struct{ X int }
 
 func (m c20Marsh) MarshalValue() data.Value { return data.String(fmt.Sprintf("marshaled-%d", m.X)) }
 
+// named primitive types with a custom marshaler: honoured wherever they occur (alone, in slices, maps, struct fields)
+type c20Cents int64
+
+func (c c20Cents) MarshalValue() data.Value { return data.String(fmt.Sprintf("%d cents", int64(c))) }
+
+type c20Label string
+
+func (l c20Label) MarshalValue() data.Value { return data.Map{"label": data.String(string(l))} }
+
+type c20Ratio float64
+
+func (r c20Ratio) MarshalValue() data.Value { return data.Int(int64(float64(r) * 100)) }
+
+type c20Flag bool
+
+func (f c20Flag) MarshalValue() data.Value {
+	if f {
+		return data.String("yes")
+	}
+	return data.String("no")
+}
+
 type c20Outer struct {
 	ID        int64
 	Title     string
@@ -105,7 +127,7 @@ func (g *c20gen) timeVal() (time.Time, exp) {
 
 // scalar returns a random scalar of a random Go kind.
 func (g *c20gen) scalar() (interface{}, exp) {
-	switch g.r.Intn(20) {
+	switch g.r.Intn(21) {
 	case 0:
 		g.kinds["nil"] = true
 		return nil, exp{kind: "null"}
@@ -188,6 +210,11 @@ func (g *c20gen) scalar() (interface{}, exp) {
 			return &m, e
 		}
 		return m, e
+	case 19:
+		if g.r.Bool() {
+			return g.namedMarshaler()
+		}
+		fallthrough
 	default:
 		g.kinds["nil-pointer"] = true
 		switch g.r.Intn(3) {
@@ -201,6 +228,46 @@ func (g *c20gen) scalar() (interface{}, exp) {
 			var p *time.Time
 			return p, exp{kind: "null"}
 		}
+	}
+}
+
+// namedMarshaler: a value of a named primitive type with MarshalValue, alone or as the element type of a slice or map.
+func (g *c20gen) namedMarshaler() (interface{}, exp) {
+	g.kinds["named-primitive-marshaler"] = true
+	n := g.r.Intn(1000)
+	cents := func(k int) (c20Cents, exp) {
+		return c20Cents(k), exp{kind: "string", s: fmt.Sprintf("%d cents", k)}
+	}
+	switch g.r.Intn(8) {
+	case 0:
+		return cents(n)
+	case 1:
+		l := c20Label(g.str())
+		return l, exp{kind: "map", m: map[string]exp{"label": {kind: "string", s: string(l)}}}
+	case 2:
+		return c20Ratio(0.25), exp{kind: "int", i: 25}
+	case 3:
+		return c20Flag(true), exp{kind: "string", s: "yes"}
+	case 4:
+		g.kinds["[]named-primitive-marshaler"] = true
+		var sl []c20Cents
+		e := exp{kind: "list"}
+		for k := 0; k < 1+g.r.Intn(3); k++ {
+			c, ce := cents(n + k)
+			sl = append(sl, c)
+			e.list = append(e.list, ce)
+		}
+		return sl, e
+	case 5:
+		g.kinds["[]named-primitive-marshaler"] = true
+		sl := []c20Label{"a", "b"}
+		return sl, exp{kind: "list", list: []exp{{kind: "map", m: map[string]exp{"label": {kind: "string", s: "a"}}}, {kind: "map", m: map[string]exp{"label": {kind: "string", s: "b"}}}}}
+	case 6:
+		g.kinds["[]named-primitive-marshaler"] = true
+		return []c20Flag{true, false}, exp{kind: "list", list: []exp{{kind: "string", s: "yes"}, {kind: "string", s: "no"}}}
+	default:
+		c, ce := cents(n)
+		return map[string]c20Cents{"price": c}, exp{kind: "map", m: map[string]exp{"price": ce}}
 	}
 }
 
@@ -567,7 +634,7 @@ func init() {
 		Floors: func(obs map[string]int64, cells map[string]bool, tier string) []string {
 			var why []string
 			for _, k := range []string{"nil", "bool", "int", "int8", "int16", "int32", "int64", "uint", "uint8", "uint16", "uint32", "uint64", "float32", "float64", "string", "time", "*time",
-				"marshaler", "*marshaler", "nil-pointer", "[]interface{}", "[]int", "nil-slice", "map[string]interface{}", "map[string]int", "nil-map", "struct", "*struct", "**struct", "struct-nested"} {
+				"marshaler", "*marshaler", "nil-pointer", "[]interface{}", "[]int", "nil-slice", "map[string]interface{}", "map[string]int", "nil-map", "struct", "*struct", "**struct", "struct-nested", "named-primitive-marshaler", "[]named-primitive-marshaler"} {
 				if !cells["kind:"+k] {
 					why = append(why, "Go kind never generated: "+k)
 				}
